@@ -3,6 +3,9 @@ macro_rules! registry {
     ($action:ident, $id:expr, $ctx:expr, $path:expr) => {
         match $id {
             "C01" => dispatch!($action, props::c01::C01, $ctx, $path),
+            "C05" => dispatch!($action, props::c05::C05, $ctx, $path),
+            "C06" => dispatch!($action, props::c06::C06, $ctx, $path),
+            "C07" => dispatch!($action, props::c07::C07, $ctx, $path),
             _ => {
                 eprintln!("unknown property {}", $id);
                 2
